@@ -6,4 +6,6 @@ export CARGO_NET_OFFLINE=true
 (cd lean && lake build ConserveModel cvmodel)
 cp /repo/Cargo.lock harness/Cargo.lock
 (cd harness && cargo build --release --offline)
+# the command-line binary of /repo's working tree (the checks rebuild it when /repo changes)
+(cd harness && cargo build --release --offline --bin conserve --manifest-path "${VERIF_REPO:-/repo}/Cargo.toml" --target-dir target/repo-bin)
 echo setup-ok
